@@ -205,7 +205,7 @@ class StoreFamily:
             return cache[key]
         db = {}
         for op in c['scenarios'][0]['ops'][:upto]:
-            if op['call'] in ('create', 'update'):
+            if op['call'] == 'create' or (op['call'] == 'update' and op['arg']['id'] in db):
                 db[op['arg']['id']] = op['arg']
             elif op['call'] == 'delete':
                 db.pop(op['arg'], None)
